@@ -72,7 +72,7 @@ CHECKS = {
              "name (C14_import_gate, C14_import_once), candidate module names carry the package of their search path "
              "(longest prefix first); with -s each package directory is walked once and nothing outside the named packages "
              "is loaded (C14_package_once, C14_package_restricts). Tied to the real "
-             "code on temp trees created in shuffled order; imports observed through module top-level code.",
+             "code on temp trees created in shuffled order; imports observed through module top-level code.  The module name of a file is relative to the longest search path above it - component-wise prefix, independent of the order in which the search paths were given (Props/C14Prefix: C14_name_from_longest, C14_prefix_is_componentwise, C14_order_of_paths_irrelevant).",
         note="-s/--package is modelled (test_dirs); which directories a package name resolves to is asked of Python's import system in a worker; symlinked directories are materialised and must behave like real ones "
              "(D30 fixed); independence of enumeration order is proved per directory level and as one statement over whole "
              "trees (C14_enum_independent: trees related by permuting files and sub-directories at any depth, distinct "
